@@ -51,6 +51,22 @@ func (w *Worker) start() error {
 func (w *Worker) stop() {
 	if w.cmd != nil {
 		w.in.Close()
+		if os.Getenv("GOCOVERDIR") != "" {
+			// coverage mode (./check --cover): the child writes its counters when it returns from main, which it does on
+			// the end of its input; give it the time before the kill
+			done := make(chan struct{})
+			go func() { w.cmd.Wait(); close(done) }()
+			select {
+			case <-done:
+				w.cmd = nil
+				return
+			case <-time.After(3 * time.Second):
+			}
+			w.cmd.Process.Kill()
+			<-done
+			w.cmd = nil
+			return
+		}
 		w.cmd.Process.Kill()
 		w.cmd.Wait()
 		w.cmd = nil
